@@ -203,6 +203,7 @@ func cmdCheck(args []string) int {
 		return 2
 	}
 	exploreT := time.Since(t0) - loadT
+	dumpForkLog()
 
 	// aggregate
 	var stats SolverStats
@@ -424,6 +425,34 @@ func (e *Engine) buildReplayBinary(tmp, pkg string) (string, string, error) {
 			return "", "", err
 		}
 		repl[path] = f
+	}
+	// the package's own test files are not part of the replay binary (they may not even
+	// compile against the substituted imports): replace each by its package clause
+	if ents, err := os.ReadDir(pkgDir); err == nil {
+		for _, ent := range ents {
+			nm := ent.Name()
+			if !strings.HasSuffix(nm, "_test.go") {
+				continue
+			}
+			src, err := os.ReadFile(filepath.Join(pkgDir, nm))
+			if err != nil {
+				continue
+			}
+			pkgName := sp.Pkg.Name()
+			for _, line := range strings.Split(string(src), "\n") {
+				if strings.HasPrefix(line, "package ") {
+					f := strings.Fields(line)
+					if len(f) >= 2 {
+						pkgName = f[1]
+					}
+					break
+				}
+			}
+			n++
+			sf := filepath.Join(tmp, fmt.Sprintf("stub%d_%s", n, nm))
+			os.WriteFile(sf, []byte("package "+pkgName+"\n"), 0644)
+			repl[filepath.Join(pkgDir, nm)] = sf
+		}
 	}
 	tf := filepath.Join(tmp, "zz_verif_replay_test.go")
 	os.WriteFile(tf, []byte(tb.String()), 0644)
